@@ -44,7 +44,9 @@ def gen_number(rng, t):
     raise ValueError(k)
 
 
-UTF8_POOL = ["a", "Z", "0", " ", "é", "я", "€", "中", "\U0001f600", "\x00", "\x7f"]
+UTF8_POOL = ["a", "Z", "0", " ", "é", "я", "€", "中", "\U0001f600", "\x00", "\x7f",
+             # text that is not in canonical composition is text like any other: it is written as it is given
+             "e\u0301", "\u212a", "\u2126", "\u1100\u1161", "A\u030a", "a\u0315\u0300", "\u0344", "\ufb01"]
 
 
 def gen_value(rng, cd: RC.Codec, t, budget):
@@ -255,6 +257,39 @@ def _relaxed_value(rng, cd, t, v, counter):
         out = [_relaxed_value(rng, cd, t[1], x, counter) for x in v]
         return tuple(out) if rng.random() < 0.3 else out
     return v
+
+
+# ------------------------------------------------------------------------------------------------------------------
+# what an application does with a received object: it changes it in place
+# ------------------------------------------------------------------------------------------------------------------
+def scramble(obj, rng, depth=0):
+    """
+    Mutates a deserialized object in place, everywhere: list elements are appended / overwritten / removed, dict values replaced,
+    keys added.  The object belongs to the caller; whatever it does to it must not show in any later result of the library.
+    Returns the number of mutations made.
+    """
+    n = 0
+    if isinstance(obj, dict):
+        for k in list(obj):
+            n += scramble(obj[k], rng, depth + 1)
+            if not isinstance(obj[k], (dict, list)) or rng.random() < 0.3:
+                obj[k] = rng.choice([-5, 4660, "polluted", [42], {"zz": 1}, None, 1.5])
+                n += 1
+        if rng.random() < 0.5:
+            obj["zz_polluted"] = [42]
+            n += 1
+    elif isinstance(obj, list):
+        for x in obj:
+            n += scramble(x, rng, depth + 1)
+        r = rng.random()
+        if r < 0.6 or not obj:
+            obj.append(rng.choice([42, {"a": -5}, [4660], "polluted"]))
+        elif r < 0.8:
+            obj[rng.randrange(len(obj))] = rng.choice([77, None, {"zz": 1}])
+        else:
+            del obj[rng.randrange(len(obj))]
+        n += 1
+    return n
 
 
 # ------------------------------------------------------------------------------------------------------------------
